@@ -10,12 +10,15 @@ From RS Require Import Proofs.C11.CatalogueWf Proofs.C08.Handover.
 From RSGen Require Import Catalogue ExecScripts.
 Open Scope string_scope.
 
-Definition handover_known_unsafe : list string :=
-  ["io::file"; "ipv4::IpFrag.fragment"; "ipv4::IpFrag.tail"; "ipv4::IpFrag.datagram";   (* D15 *)
-   "dns::host"; "dhcp::hdr"].                                                            (* D13 *)
+(** functions whose scripts are NOT safe on the current tree: none (D13 and D15 were repaired by
+    fix: commits; their reverse patches are self-test mutants and make [handover_all_safe] fail) *)
+Definition handover_known_unsafe : list string := [].
 
-(** the full-strength statement (not asserted while D13/D15 are open) *)
+(** every exec body, read off the current source, takes its arguments safely *)
 Definition handover_all_safe : Prop := forallb (entry_safe exec_scripts) catalogue = true.
+
+Lemma handover_all_safe_holds : handover_all_safe.
+Proof. vm_compute. reflexivity. Qed.
 
 Lemma handover_instance :
   forallb (fun f => entry_safe exec_scripts f || mem_string (fd_key f) handover_known_unsafe) catalogue = true.
